@@ -438,6 +438,21 @@ func (r *Runner) Do(idx int, s Step) *Mismatch {
 			b, err = readPieces(rc, s.Pieces)
 		}
 		m = r.checkRead(idx, s, "", "getreader", s.Actor, s.Key, b, err)
+	case "getreader_gc":
+		// open a reader, let the collector and the cleaner run, then read to the end
+		rc, err := st.GetReader(ctx, s.Key)
+		var b []byte
+		if err == nil {
+			if cerr := r.Env.Collect(); cerr != nil {
+				return r.mism(idx, s, "", "collect-failed", "ok", fmt.Sprint(cerr))
+			}
+			if derr := r.Env.Drain(); derr != nil {
+				return r.mism(idx, s, "", "drain-failed", "ok", fmt.Sprint(derr))
+			}
+			r.Stats.Collected++
+			b, err = readPieces(rc, s.Pieces)
+		}
+		m = r.checkRead(idx, s, "", "getreader_gc", s.Actor, s.Key, b, err)
 	case "getkeys":
 		keys, err := st.GetKeys(ctx)
 		m = r.checkKeys(idx, s, "", s.Actor, keys, err)
@@ -472,6 +487,8 @@ func (r *Runner) Do(idx int, s Step) *Mismatch {
 			return r.mism(idx, s, "", "reopen-failed", "ok", fmt.Sprint(err))
 		}
 		r.M.Reopen()
+		// handles of the previous incarnation belong to the closed client: drop them
+		r.Txs = map[int]fs_db.Tx{}
 	default:
 		panic("unknown op " + s.Op)
 	}
